@@ -20,6 +20,7 @@ returns a result).
 -/
 import RegexVerif.Lemmas.VM
 import RegexVerif.Lemmas.Compose
+import RegexVerif.Lemmas.StackTyping
 
 namespace RegexVerif.Props.C10
 open RegexVerif RegexVerif.VM RegexVerif.Code RegexVerif.Lemmas.VM
@@ -184,6 +185,29 @@ example : ∃ s0, init (emit info2 tree2) 1 = .ok s0 ∧
   emitted_no_structural_fault info2 tree2 (by decide) demoEnv 1 (by decide) (by decide) 1000
 example : ∃ qp, emitQuick info2 tree3 = some qp ∧ qp.wf = true ∧ qp.codes.toList = [23, 10, 31, 9, 120, 9, 121, 32, 0, -1, 40] :=
   ⟨_, rfl, by decide, by decide⟩
+
+/-! ### the grouping-stack typing (Model/StackTyping.lean): evaluated, not yet a guarantee
+
+`StackTyping.typed p` — a height and a kind (text position / mark / counter / saved backtracking depth / saved
+crawl depth) for every grouping-stack slot at every instruction boundary, consistent along fall-through, jumps and
+the continuations of the Back cases — is decidable and leg W evaluates it on every compiled program
+(`W:untyped:<opcode>`).  That a typed well-formed program never raises `stackUnderflow`, `tracktoRange` or
+`textposRange` is NOT proved here (design.d/C10.md states the invariant the proof needs); the examples show the
+check is not vacuous: the emitted programs are typed, and a program that is `wf` and `potOk` but untyped runs into
+`stackUnderflow`. -/
+
+example : StackTyping.typed demo = true ∧ StackTyping.typed (emit info2 tree2) = true ∧
+    StackTyping.maxHeight (emit info2 tree2) = 4 ∧
+    (emitQuick info2 tree3).map StackTyping.typed = some true := by decide
+
+example : Lemmas.StackTyping.untypedDemo.wf = true ∧ potOk Lemmas.StackTyping.untypedDemo = true ∧
+    StackTyping.typed Lemmas.StackTyping.untypedDemo = false ∧
+    StackTyping.typeReport Lemmas.StackTyping.untypedDemo = 1 + Generated.Opcodes.opGetmark ∧
+    (match init Lemmas.StackTyping.untypedDemo 0 with
+     | .ok s0 => (match (run Lemmas.StackTyping.untypedDemo demoEnv 10 s0).1 with
+        | .fault .stackUnderflow => true
+        | _ => false)
+     | .error _ => false) = true := by decide
 
 end Emitted
 
